@@ -742,6 +742,8 @@ func c42LockedRules(k *eng.Check, n string, fn *ssa.Function, be c42Backend, ev 
 				if len(eng.Calls(mc.Fn.(*ssa.Function), be.unlock, false)) > 0 {
 					deferred++
 				}
+			} else if f := d.Call.StaticCallee(); f != nil && len(f.Blocks) > 0 && len(eng.CallsDeep(f, be.unlock, true)) > 0 {
+				deferred++ // `defer releaseHelper(lock)`: a named function that releases the lock
 			}
 		}
 	}
